@@ -4,5 +4,6 @@ Ops2 <- SecondOps
 InjectBytes <- InjAll
 Depths <- DepthsQuick
 AllowInPlace = FALSE
+SeedsUsed <- ShortSeeds
 INVARIANTS TypeOK DocBound
 CHECK_DEADLOCK FALSE
